@@ -112,7 +112,7 @@ CHECKS = {
                    "the error flag reported for a blocked action is not constrained (the statement does not name it)"]),
     "C03": Chk("C03", GEN_RULE + "Non-trivial = visited state with a compromised host in a non-public subnet, or a subnet scan "
                "that newly discovers a host; distinct by (scenario, state[, action]).",
-               O.c03, on_start=_c03_start, on_reset=_c03_reset, assumptions=ASSUME_COMMON),
+               O.c03, on_start=_c03_start, on_reset=_c03_reset, doc_kw=dict(wide=0.4), assumptions=ASSUME_COMMON),
     "C04": Chk("C04", GEN_RULE + "Non-trivial = reset after at least one host was compromised, or a USER-granting exploit "
                "re-run on a ROOT host; distinct by (scenario, position in history).",
                _c04_rec, on_reset=_c04_reset2, assumptions=ASSUME_COMMON),
@@ -452,7 +452,41 @@ def _c07_freq_shard(shard, seed, pid, tier, jobs):
     return rep
 
 
+def topology_corpus():
+    """canonical subnet graphs (one host per subnet, one prob-1 ROOT exploit) x scripted walks: depth-first all the
+    way, breadth-first, and mixed with subnet scans - behaviour that depends on the SHAPE of the network
+    (rings walked one way round, lines with two public ends, hubs) is exercised in every run, not only when
+    random histories happen to penetrate that deep"""
+    from .check_c20 import tight_doc
+    ring = lambda n: [(0, 1)] + [(k, k + 1) for k in range(1, n)] + [(n, 1)]
+    line2 = lambda n: [(0, 1), (0, n)] + [(k, k + 1) for k in range(1, n)]
+    shapes = [
+        ("ring-6", ring(6), 6, {(4, 0): 10}), ("ring-8", ring(8), 8, {(5, 0): 10, (8, 0): 10}),
+        ("line-5-two-public", line2(5), 5, {(3, 0): 10}), ("line-7-two-public", line2(7), 7, {(4, 0): 10}),
+        ("chain-6", [(0, 1)] + [(k, k + 1) for k in range(1, 6)], 6, {(6, 0): 10}),
+        ("star-6", [(0, 1)] + [(1, k) for k in range(2, 7)], 6, {(5, 0): 10, (6, 0): 10}),
+        ("two-rings", ring(5) + [(3, 6), (6, 7), (7, 8), (8, 3)], 8, {(7, 0): 10}),
+        ("tree-depth-3", [(0, 1), (1, 2), (1, 3), (2, 4), (2, 5), (3, 6), (3, 7)], 7, {(4, 0): 10, (7, 0): 10}),
+    ]
+    walks = {
+        "depth-first": [("d", 3 * i + 1, "lo", i) for i in range(40)],
+        "breadth-first": [("p", 5 * i, "lo", i) for i in range(40)],
+        "reverse": [("p", 10 ** 6 - 7 * i, "lo", i) if i % 3 else ("d", 10 ** 6 - i, "lo", i) for i in range(40)],
+        "with-resets": [("d", i, "lo", i) if i % 13 else ("x",) for i in range(1, 50)],
+    }
+    for name, edges, n, sens in shapes:
+        doc = tight_doc(edges, n, sens)
+        for wname, ops in walks.items():
+            yield f"{name}/{wname}", dict(source={"kind": "doc", "doc": doc, "flow": None}, modes={}, ops=ops)
+
+
 def run_corpus(chk, rep):
+    if chk.pid in ("C02", "C03", "C04", "C08"):
+        n = 0
+        for name, case in topology_corpus():
+            engine.CaseRunner(chk, rep).run(case)
+            n += 1
+        rep.extra["topology_corpus_cases"] = n
     n = 0
     for path in sorted(glob.glob(os.path.join(common.CORPUS_DIR, chk.pid, "*.json"))):
         j, case = engine.load_replay(path)
